@@ -187,7 +187,7 @@ MANUAL = {
     ("quic", "CryptoError"): ([r'write!\(f, "crypto_error_0x1\{:02x\}", self\.0\)',
                                r'impl Serialize for CryptoError \{.*?serializer\.serialize_str\(&self\.to_string\(\)\)',
                                r'let string = String::deserialize\(deserializer\)\?;\s*string\.strip_prefix\("crypto_error_0x1"\)\.map_or_else\('],
-                              {"k": "unitEnum", "names": ["crypto_error_0x1%02x" % i for i in range(256)]},
+                              {"k": "hex", "len": 1, "pfx": "crypto_error_0x1"},
                               "exactly the 256 strings crypto_error_0x1XX that Display prints (the hand-written Deserialize also accepts upper-case / 1-digit / '+' forms of the same numbers)"),
 }
 
@@ -605,7 +605,7 @@ def generate(g):
         if k == "int":
             return f"(.int ({s['lo']}) ({s['hi']}))"
         if k == "hex":
-            return "(.hex " + ("none" if s["len"] is None else f"(some {s['len']})") + ")"
+            return "(.hex " + lstr(s.get("pfx", "")) + " " + ("none" if s["len"] is None else f"(some {s['len']})") + ")"
         if k == "opt":
             return f"(.opt {lean(s['s'])})"
         if k == "seq":
